@@ -18,9 +18,13 @@ theorem gateEq_spec {g h : Status → Method → Bool} (hg : gateEq g h = true) 
 theorem cfgOk_spec {cfg : Cfg} (h : cfgOk cfg = true) :
     cfg.playAgainResponds = true ∧ cfg.playingNeedsOk = true ∧ ∀ st m, cfg.gate st m = refGate st m := by
   simp only [cfgOk, Bool.and_eq_true] at h
-  exact ⟨h.1.1.1, h.1.1.2, gateEq_spec h.1.2⟩
+  exact ⟨h.1.1.1.1, h.1.1.1.2, gateEq_spec h.1.1.2⟩
 
 theorem cfgOk_sid {cfg : Cfg} (h : cfgOk cfg = true) : cfg.sidCarried = true := by
+  simp only [cfgOk, Bool.and_eq_true] at h
+  exact h.1.2
+
+theorem cfgOk_frames {cfg : Cfg} (h : cfgOk cfg = true) : cfg.framesDropped = true := by
   simp only [cfgOk, Bool.and_eq_true] at h
   exact h.2
 
